@@ -207,3 +207,30 @@ func NewTransfer(from Account, nonce uint64, to common.Address, value *big.Int) 
 
 // NilCommit is the (empty, non-nil) last commit of the first block.
 func NilCommit() *types.Commit { return &types.Commit{} }
+
+// NewTokenTransfer returns a signed account-based transfer of a non-LKC token to a plain address.
+func NewTokenTransfer(from Account, token common.Address, nonce uint64, to common.Address, value *big.Int) (*types.TokenTransaction, error) {
+	tx := types.NewTokenTransaction(token, nonce, to, value, uint64(types.MinGasLimit), big.NewInt(types.ParGasPrice), nil)
+	if err := tx.Sign(types.GlobalSTDSigner, from.Key); err != nil {
+		return nil, err
+	}
+	return tx, nil
+}
+
+// NewContractCreation returns a signed EVM contract creation carrying code (init code) with gas limit gas.
+func NewContractCreation(from Account, nonce uint64, value *big.Int, gas uint64, code []byte) (*types.Transaction, error) {
+	tx := types.NewContractCreation(nonce, value, gas, big.NewInt(types.ParGasPrice), code)
+	if err := tx.Sign(types.GlobalSTDSigner, from.Key); err != nil {
+		return nil, err
+	}
+	return tx, nil
+}
+
+// NewCall returns a signed call of contract `to` with input data.
+func NewCall(from Account, nonce uint64, to common.Address, value *big.Int, gas uint64, data []byte) (*types.Transaction, error) {
+	tx := types.NewTransaction(nonce, to, value, gas, big.NewInt(types.ParGasPrice), data)
+	if err := tx.Sign(types.GlobalSTDSigner, from.Key); err != nil {
+		return nil, err
+	}
+	return tx, nil
+}
